@@ -1,0 +1,12 @@
+//go:build !verif
+
+// Package verifhook provides instrumentation points for the external verification
+// harness. Without the `verif` build tag every point compiles to nothing.
+package verifhook
+
+// Enabled is a compile-time constant so that `if verifhook.Enabled { ... }` blocks are
+// removed entirely from normal builds.
+const Enabled = false
+
+// Point is a no-op without the `verif` build tag.
+func Point(name string, args ...any) {}
